@@ -345,6 +345,33 @@ class QueueLimits(Monitor):
                     f'{sorted(_ident(t) + ":" + t.state.status for t in act)}'
                     f' active; manually triggered: {sorted(self.manual)} '
                     f'(after {ev[0]})'))
+        # "released in the order they were queued, skipping held ones": after
+        # a main-loop iteration of its own (tick) a limited queue with a free
+        # slot cannot still hold a queued member that is not held
+        if ev[0] == 'tick' and not w.schd.is_paused and \
+                w.schd.stop_mode is None:
+            for q, L in sorted(self.limit.items()):
+                if L <= 0:
+                    continue
+                n_act = len(per_q.get(q, []))
+                left = sorted(
+                    _ident(t) for t in tasks
+                    if t.state.is_queued and not t.state.is_held
+                    and self.owner.get(t.tdef.name, 'default') == q)
+                if n_act < L and left:
+                    held = sorted(
+                        _ident(t) for t in tasks
+                        if t.state.is_queued and t.state.is_held
+                        and self.owner.get(t.tdef.name, 'default') == q)
+                    out.append(self.viol(
+                        'free-slot-but-unheld-member-left-queued'
+                        + (':behind-held-members' if held else ''),
+                        f'queue {q!r} (limit {L}) has {n_act} active '
+                        f'member(s) after a main-loop iteration, yet {left} '
+                        f'stay queued and are not held (held queued '
+                        f'members: {held})'))
+                elif left:
+                    COUNTS.bump('queued_members_waiting_for_a_slot')
         # membership as the scheduler applies it: a queued task sits in the
         # deque of exactly its owner queue; an unqueued one in none
         tqm = pool.task_queue_mgr
